@@ -95,7 +95,10 @@ func tallFamily(c *Ctx, prop string) {
 		return
 	}
 	fam := &HistFamily{Nmax: 128, Insts: insts, Or: or, PermLimit: 2, UndoBud: 1}
-	type run struct{ hist []Op }
+	type run struct {
+		hist     []Op
+		undoOnly bool // the history without the final undo is another run's
+	}
 	var runs []run
 	for _, N := range []int{16, 17, 31, 32, 33, 63, 64, 65} {
 		seen := map[string]bool{}
@@ -157,7 +160,7 @@ func tallFamily(c *Ctx, prop string) {
 		add(all[1:])
 		for _, s := range sets {
 			for _, k := range []int{0, 1, 3} {
-				runs = append(runs, run{[]Op{{Kind: "block", Adds: N}, {Kind: "block", Dels: s, Adds: k}}})
+				runs = append(runs, run{hist: []Op{{Kind: "block", Adds: N}, {Kind: "block", Dels: s, Adds: k}}})
 			}
 		}
 	}
@@ -215,11 +218,11 @@ func tallFamily(c *Ctx, prop string) {
 					}
 				}
 				base := []Op{{Kind: "block", Adds: N}, {Kind: "block", Dels: S, Adds: k}}
-				runs = append(runs, run{base})
+				runs = append(runs, run{hist: base})
 				for j, a := range live {
-					runs = append(runs, run{append(append([]Op(nil), base...), Op{Kind: "block", Dels: []int{a}})})
+					runs = append(runs, run{hist: append(append([]Op(nil), base...), Op{Kind: "block", Dels: []int{a}})})
 					if j+1 < len(live) && c.Thorough() {
-						runs = append(runs, run{append(append([]Op(nil), base...), Op{Kind: "block", Dels: []int{a, live[j+1]}})})
+						runs = append(runs, run{hist: append(append([]Op(nil), base...), Op{Kind: "block", Dels: []int{a, live[j+1]}})})
 					}
 				}
 			}
@@ -249,7 +252,7 @@ func tallFamily(c *Ctx, prop string) {
 		for _, S := range [][]int{rng(0, half), rng(half, p2), rng(quarter, half), rng(0, p2), {0}, {half}, rng(1, half), rng(half, p2-1)} {
 			for _, k := range []int{0, 1, 3} {
 				base := []Op{{Kind: "block", Adds: N}, {Kind: "block", Dels: S, Adds: k}}
-				runs = append(runs, run{base})
+				runs = append(runs, run{hist: base})
 				// then delete the first / the last leaf that is still alive (the bottom of a subtree
 				// that moved up a row)
 				if len(S) > 1 && len(S) < N {
@@ -268,7 +271,7 @@ func tallFamily(c *Ctx, prop string) {
 					}
 					for _, t := range []int{first, last} {
 						if t >= 0 {
-							runs = append(runs, run{append(append([]Op(nil), base...), Op{Kind: "block", Dels: []int{t}})})
+							runs = append(runs, run{hist: append(append([]Op(nil), base...), Op{Kind: "block", Dels: []int{t}})})
 						}
 					}
 				}
@@ -278,7 +281,7 @@ func tallFamily(c *Ctx, prop string) {
 					if S[0] == half {
 						surv = p2 - 1
 					}
-					runs = append(runs, run{append(append([]Op(nil), base...), Op{Kind: "block", Dels: []int{surv}, Adds: 1})})
+					runs = append(runs, run{hist: append(append([]Op(nil), base...), Op{Kind: "block", Dels: []int{surv}, Adds: 1})})
 				}
 			}
 		}
@@ -293,7 +296,7 @@ func tallFamily(c *Ctx, prop string) {
 	for _, N := range auNs {
 		for _, S := range alignedUnions(N, 3) {
 			for _, k := range []int{0, 1} {
-				runs = append(runs, run{[]Op{{Kind: "block", Adds: N}, {Kind: "block", Dels: S, Adds: k}}})
+				runs = append(runs, run{hist: []Op{{Kind: "block", Adds: N}, {Kind: "block", Dels: S, Adds: k}}})
 			}
 		}
 	}
@@ -344,7 +347,7 @@ func tallFamily(c *Ctx, prop string) {
 						}
 						n += a
 						if b%2 == 1 || b == chainLen-1 {
-							runs = append(runs, run{append([]Op(nil), hist...)})
+							runs = append(runs, run{hist: append([]Op(nil), hist...)})
 						}
 					}
 					nChains++
@@ -352,6 +355,38 @@ func tallFamily(c *Ctx, prop string) {
 			}
 		}
 	}
+	// gap family: 21 (thorough: also 27, 37) leaves, an interval deleted, then blocks that delete
+	// the neighbours of the growing gap; every history is also undone all the way back, one undo
+	// at a time, with the oracle after every undo (up to four undos in a row)
+	gapStart := len(runs)
+	gapNs, gapW, gapDepth := []int{21}, 3, 2
+	if c.Thorough() {
+		gapNs, gapW, gapDepth = []int{21, 27, 37}, 6, 3
+	}
+	for _, N := range gapNs {
+		for _, h := range gapHists(N, gapW, []int{0, 2}, gapDepth, nil, false) {
+			runs = append(runs, run{hist: h})
+			for u := 2; u < len(h); u++ {
+				hu := append([]Op(nil), h...)
+				for j := 1; j < u; j++ {
+					hu = append(hu, Op{Kind: "undo"})
+				}
+				runs = append(runs, run{hu, true}) // the run loop appends the last undo itself
+			}
+		}
+	}
+	c.Cov.Bound["gap_family"] = fmt.Sprintf("N=%v interval width<=%d, %d neighbour blocks, undone completely; %d runs", gapNs, gapW, gapDepth-1, len(runs)-gapStart)
+	// two-deletion-block family: every [add N][delete S][delete T, add k] (3^N assignments), and its undo(s)
+	tdN := 8
+	if c.Thorough() {
+		tdN = 9
+	}
+	tdStart := len(runs)
+	for _, h := range twoDelHists(tdN, []int{0, 1}, nil, false) {
+		runs = append(runs, run{hist: h})
+		runs = append(runs, run{append(append([]Op(nil), h...), Op{Kind: "undo"}), true})
+	}
+	c.Cov.Bound["two_deletion_blocks"] = fmt.Sprintf("N=%d, every disjoint non-empty S,T; %d runs", tdN, len(runs)-tdStart)
 	c.Cov.Bound["chains"] = fmt.Sprintf("%d chains of %d blocks", nChains, chainLen)
 	c.Cov.Bound["very_tall.N"] = fmt.Sprint(vtNs)
 	c.Cov.Bound["very_tall.runs"] = vtRuns
@@ -363,7 +398,7 @@ func tallFamily(c *Ctx, prop string) {
 		h := runs[i].hist
 		for _, hist := range [][]Op{h, append(append([]Op(nil), h...), Op{Kind: "undo"})} {
 			hist := hist
-			if or.OnlyAfter == "undo" && hist[len(hist)-1].Kind != "undo" {
+			if (or.OnlyAfter == "undo" || runs[i].undoOnly) && hist[len(hist)-1].Kind != "undo" {
 				continue
 			}
 			x := NewExec(prop, func() Case { return mkCase("hist", histPayload{Fam: *fam, Hist: hist}) })
@@ -390,4 +425,138 @@ func tallFamily(c *Ctx, prop string) {
 	c.Cov.AddEvals(evals)
 	c.Cov.AddNontrivial(done)
 	c.Cov.SetExtra("tall_family_runs", done)
+}
+
+// gapHists: the gap family - irregular, non-aligned deletion patterns on a forest of N leaves,
+// several blocks deep. Block 1 adds N leaves (remembering remFirst). Block 2 deletes one contiguous
+// interval of slots of width 1..w (every start) and adds k leaves (k from ks). Every later block
+// (up to depth blocks after the first) deletes a set of live leaves next to the gap the earlier
+// deletions left - the live neighbour on the left, the one on the right, both, the two on the left,
+// the two on the right - and adds k leaves. Neighbours of a gap are the leaves that moved up when
+// their siblings went away, so these chains walk a leaf up the tree block by block. Every history
+// of every depth 1..depth is returned (remAdds: later additions are all remembered).
+func gapHists(N, w int, ks []int, depth int, remFirst []int, remAdds bool) [][]Op {
+	var out [][]Op
+	remOf := func(k int) []int {
+		r := []int{}
+		if remAdds {
+			for i := 0; i < k; i++ {
+				r = append(r, i)
+			}
+		}
+		return r
+	}
+	var rec func(hist []Op, live []int, n, g, left int)
+	rec = func(hist []Op, live []int, n, g, left int) {
+		out = append(out, hist)
+		if left == 0 {
+			return
+		}
+		// g = index in live of the first live leaf to the right of the gap
+		var opts [][]int
+		at := func(i int) (int, bool) {
+			if i >= 0 && i < len(live) {
+				return i, true
+			}
+			return 0, false
+		}
+		addOpt := func(idx ...int) {
+			var o []int
+			for _, i := range idx {
+				j, ok := at(i)
+				if !ok {
+					return
+				}
+				o = append(o, j)
+			}
+			opts = append(opts, o)
+		}
+		addOpt(g - 1)
+		addOpt(g)
+		addOpt(g-1, g)
+		addOpt(g-2, g-1)
+		addOpt(g, g+1)
+		for _, o := range opts {
+			for _, k := range ks {
+				dead := map[int]bool{}
+				var dels []int
+				for _, i := range o {
+					dead[i] = true
+					dels = append(dels, live[i])
+				}
+				var nl []int
+				ng := -1
+				for i, x := range live {
+					if dead[i] {
+						if ng < 0 {
+							ng = len(nl)
+						}
+						continue
+					}
+					nl = append(nl, x)
+				}
+				for i := 0; i < k; i++ {
+					nl = append(nl, n+i)
+				}
+				h := append(append([]Op(nil), hist...), Op{Kind: "block", Dels: dels, Adds: k, Rem: remOf(k)})
+				rec(h, nl, n+k, ng, left-1)
+			}
+		}
+	}
+	for width := 1; width <= w; width++ {
+		for a := 0; a+width <= N; a++ {
+			for _, k := range ks {
+				var dels, live []int
+				for x := 0; x < N; x++ {
+					if x >= a && x < a+width {
+						dels = append(dels, x)
+					} else {
+						live = append(live, x)
+					}
+				}
+				for i := 0; i < k; i++ {
+					live = append(live, N+i)
+				}
+				h := []Op{{Kind: "block", Adds: N, Rem: remFirst}, {Kind: "block", Dels: dels, Adds: k, Rem: remOf(k)}}
+				rec(h, live, N+k, a, depth-1)
+			}
+		}
+	}
+	return out
+}
+
+// twoDelHists: every history [add N][delete S][delete T, add k] with S and T non-empty and disjoint
+// (each of the N leaves survives, goes in the second block or goes in the third: 3^N assignments).
+func twoDelHists(N int, ks []int, remFirst []int, remAdds bool) [][]Op {
+	var out [][]Op
+	total := 1
+	for i := 0; i < N; i++ {
+		total *= 3
+	}
+	for code := 0; code < total; code++ {
+		var S, T []int
+		c := code
+		for i := 0; i < N; i++ {
+			switch c % 3 {
+			case 1:
+				S = append(S, i)
+			case 2:
+				T = append(T, i)
+			}
+			c /= 3
+		}
+		if len(S) == 0 || len(T) == 0 {
+			continue
+		}
+		for _, k := range ks {
+			r := []int{}
+			if remAdds {
+				for i := 0; i < k; i++ {
+					r = append(r, i)
+				}
+			}
+			out = append(out, []Op{{Kind: "block", Adds: N, Rem: remFirst}, {Kind: "block", Dels: S, Rem: []int{}}, {Kind: "block", Dels: T, Adds: k, Rem: r}})
+		}
+	}
+	return out
 }
